@@ -37,6 +37,78 @@ CHECKS["C01"] = dict(
          "in the rest.",
     technique="generated programs + independent expected-tree oracle (reference precedence parser), monitored at parse_program")
 
+CHECKS["C02"] = dict(
+    category="fault_enumeration", design_ref="DESIGN.md 4 (C02)",
+    text="Valid-by-construction units are run through the real analyzer and must be accepted; then every documented "
+         "rule's fail shape is planted at every applicable site of each unit (declaration, block class and qualifier, "
+         "statement nesting position, first/middle/last POU) and the rule's published code must be among the "
+         "diagnostics; sampled double faults must be rejected. Fault enumeration is the right level: the rules are a "
+         "finite list, the sites of a program are enumerable, and what can go wrong is a rule that stops visiting a "
+         "site.",
+    note="'Valid' is what the generator constructs (type-correct, fully declared, inside the sub-language the analyzer "
+         "does not answer P9999 for); P9999 is counted as unsupported and a run with > 5 % unsupported is inconclusive. "
+         "Rule -> code table taken from problem-codes.csv and the rule modules' doc comments.",
+    technique="valid-by-construction generator + per-rule fault planters at every site, monitored at analyze()")
+CHECKS["C03"] = dict(
+    category="fault_enumeration", design_ref="DESIGN.md 4 (C03)",
+    text="Each fault kind (lexical error file, syntax error file, every context-free rule fault) is placed among 0-4 "
+         "valid companion files and split over 1-3 files in shuffled order; the set must fail and keep the planted code "
+         "(monotonicity oracle), observed at FileBackedProject::semantic and at the real `ironplcc check` with files "
+         "and with a directory. Every named declaration is given a same-named twin (same / other kind, same file before "
+         "/ after, other file) and a duplicate code is required. Hook events of the analyzer stages give a conservation "
+         "monitor: names into the topological re-assembly = names out.",
+    note="Companions are generated with disjoint name prefixes so they cannot cure an 'undeclared' fault; conservation "
+         "is only judged when the re-assembly returned Ok; hash-order diversity comes from real per-thread seeds.",
+    technique="fault placement enumeration with monotonicity + duplicate + conservation (hook event) monitors")
+CHECKS["C06"] = dict(
+    category="exploration", design_ref="DESIGN.md 4 (C06)",
+    text="Metamorphic runtime monitor: all variants of one unit (permutation x partition into <= 3 files x file order, "
+         "complete for <= 4 declarations, all 120 permutations + all 181 partition/orders for 5, sampled beyond) are "
+         "analysed on fresh threads (fresh hash seeds) in process and through the CLI with every argument order, the "
+         "directory and repeated runs; verdicts, and for single-fault units code + declaration + offset + spelling, "
+         "must agree.",
+    note="Exhaustive only for units of <= 4 declarations (reported per run); hash-iteration orders are the ones real "
+         "seeds produced (distinct file orders observed are counted through the project hook).",
+    technique="metamorphic equality over enumerated permutations/partitions/file orders and fresh hash seeds")
+CHECKS["C07"] = dict(
+    category="exploration", design_ref="DESIGN.md 4 (C07)",
+    text="Every directed graph on <= 3 nodes (quick) / <= 4 nodes (thorough, 65 536 graphs) and random graphs on 5-12 "
+         "nodes are realised as function-block instance graphs, structure graphs, mixed alias/structure graphs and "
+         "array-element graphs with shuffled declaration order; a reference DFS cycle test decides whether P0010/P0013 "
+         "must be present.",
+    note="Only the presence of the recursion codes is judged. exhaustive=true is set in the evidence only when the "
+         "whole <= 4-node space was run (thorough tier).",
+    technique="exhaustive small-graph enumeration against a reference cycle detector, monitored at analyze()")
+CHECKS["C08"] = dict(
+    category="exploration", design_ref="DESIGN.md 4 (C08)",
+    text="Metamorphic monitor at parse_program / analyze: a generated program in canonical spelling and re-spellings of "
+         "the same token list along one dimension at a time (keyword case, textual-keyword case, identifier case per "
+         "occurrence, trivia incl. CRLF/FF/multi-line/star-ended comments at every soft boundary, optional ';' after "
+         "END_IF) and all together must give equal normal forms and the same verdict; END_IF chains of depth 1-4 with "
+         "every subset of semicolons are enumerated.",
+    note="Trivia is inserted only where the canonical spelling has white space; identifiers are compared lower-cased "
+         "(IEC identifiers are case-insensitive).",
+    technique="metamorphic re-spelling monitor over generated programs")
+CHECKS["C09"] = dict(
+    category="exploration", design_ref="DESIGN.md 4 (C09)",
+    text="A structured literal grid (base x magnitude class x underscore position x sign x type prefix; real whole x "
+         "fraction x exponent; duration unit x boundary / fractional value x prefix x sign; every date/time field at 0, "
+         "in range, max, max+1, over; strings; address prefix x size x components x digits) is evaluated by a Python "
+         "big-integer / Fraction / calendar reference and compared with the constant node of the parsed library, as "
+         "initial value and inside an expression; unrepresentable literals must be rejected with a syntax diagnostic.",
+    note="Representable = ironplc's own carrier (u128, finite f64, i64 seconds with a u64 numeric part, year 0..9999, "
+         "u32 component). Left undecided: real underflow to zero, sub-nanosecond duration fractions, escape decoding.",
+    technique="reference-evaluator oracle over a boundary-value literal grid, monitored at parse_program")
+CHECKS["C10"] = dict(
+    category="exploration", design_ref="DESIGN.md 4 (C10), 7",
+    text="Every generated source the parser accepts and the repository's fixtures are rendered, re-parsed, compared by "
+         "normal form and rendered again (fixed point). The pinned renderer has 22 recorded defects that cannot be "
+         "repaired without editing the stored expected outputs of the existing tests; 2/3 of the workload avoids the "
+         "constructs involved (any failure there is a violation), the rest must fail only with a recorded signature.",
+    note="Equality is judged on the normal form; the known-findings file lists, per defect, the generator atoms and the "
+         "fixtures it affects.",
+    technique="round-trip (parse-render-parse-render) monitor over generated programs")
+
 NOT_YET = {}
 
 
